@@ -19,7 +19,7 @@ os.environ.setdefault('THERMOSTEAM_VERIF', '1')
 
 VERIF = os.path.dirname(os.path.dirname(os.path.abspath(__file__)))
 sys.path.insert(0, VERIF)
-sys.path.insert(0, '/repo')
+sys.path.insert(0, os.environ.get('VERIF_REPO', '/repo'))     # a scratch copy only when a seeded change is tried (tools/seedtest2.sh)
 
 import warnings  # noqa: E402
 warnings.filterwarnings('ignore')
